@@ -145,7 +145,7 @@ type unitCase struct {
 	ChunkLen []int    `json:"chunk_lens"`
 	EOFLast  bool     `json:"eof_with_last"`
 	Pattern  []int    `json:"caller_sizes"`
-	BufMode  string   `json:"buf_mode"` // zero | stale-meta | aa | reuse
+	BufMode  string   `json:"buf_mode"` // zero | stale-meta | aa | reuse | fill
 	FailAt   int      `json:"fail_after_chunks"` // -1 = none
 	Stack     string  `json:"stack,omitempty"`   // e2e: h1-cl | h1-chunked | h1-close | h2 | h3
 	GapMS     int     `json:"gap_ms,omitempty"`  // e2e: pause between segments
@@ -204,6 +204,7 @@ func errClass(err error) string {
 // readLoop reads body with the cycled size pattern until an error; maxCalls bounds it.
 func readLoop(body io.ReadCloser, pattern []int, mode string, maxCalls int, o *obs) {
 	var reuse []byte
+	fillOff := 0
 	for i := 0; ; i++ {
 		if i >= maxCalls {
 			o.Fatal = fmt.Sprintf("no end of body after %d reads", i)
@@ -213,9 +214,16 @@ func readLoop(body io.ReadCloser, pattern []int, mode string, maxCalls int, o *o
 		var buf []byte
 		if mode == "reuse" {
 			if len(reuse) < k {
-				reuse = fillBuf("stale-meta", 16384)
+				reuse = fillBuf("stale-meta", 32768)
 			}
 			buf = reuse[:k]
+		} else if mode == "fill" {
+			// io.ReadFull style: consecutive regions of ONE backing array (the next read lands right
+			// behind what the previous one returned)
+			if len(reuse)-fillOff < k {
+				reuse, fillOff = fillBuf("stale-meta", 65536), 0
+			}
+			buf = reuse[fillOff : fillOff+k]
 		} else {
 			buf = fillBuf(mode, k)
 		}
@@ -223,6 +231,9 @@ func readLoop(body io.ReadCloser, pattern []int, mode string, maxCalls int, o *o
 		if n < 0 || n > k {
 			o.Fatal = fmt.Sprintf("Read returned n=%d for a %d-byte buffer", n, k)
 			return
+		}
+		if mode == "fill" {
+			fillOff += n
 		}
 		c := callObs{K: k, N: n, Err: errClass(err)}
 		_, c.Detected, c.HasDec, c.PeekLen, c.PeekNil = req.VerifAutoDecodeState(body)
@@ -284,6 +295,8 @@ type tables struct {
 	FindIn    []byte
 	FindHas   bool // a first non-empty read exists
 	FindOut   string
+	BomLookups [][2]string // htmlcharset.Lookup on the labels of the byte-order marks that prefix the first read: label, canonical name ("" = nil)
+	Prescan   string       // charsets.prescan(first read): canonical name ("" = nil encoding)
 	Stream    map[string][]byte // name -> transform.Reader over the chunks, drained
 	All       map[string][]byte // name -> Decoder.Bytes(whole body)
 	Takes     [][2]int          // (n, eofWithIt) of the reference transform.Reader per call
@@ -378,6 +391,22 @@ func buildTables(u *unitCase) *tables {
 		t.FindHas, t.FindIn = true, b
 		if !bytes.HasPrefix(whole, b) {
 			panic("harness: first non-empty read is not a prefix of the body")
+		}
+		marks, labels := charsets.VerifBOMs()
+		for i, mk := range marks {
+			if bytes.HasPrefix(b, mk) {
+				e, name := htmlcharset.Lookup(labels[i])
+				if e == nil {
+					name = ""
+				} else {
+					add(name, e)
+				}
+				t.BomLookups = append(t.BomLookups, [2]string{labels[i], name})
+			}
+		}
+		if e, name := charsets.VerifPrescan(b); e != nil {
+			t.Prescan = name
+			add(name, e)
 		}
 		if e, name := charsets.FindEncoding(b); e != nil {
 			t.FindOut = name
